@@ -37,6 +37,7 @@ HasR(t) == \E i \in 1..Len(t.sub) : t.sub[i].k = "R"
 \*         6 re-framed (record boundaries only), 7 record header modified
 RecOf(t) ==
     [it     |-> ITypeOf(t),
+     otype  |-> t.rtype,            \* the content type octet of the record header as delivered
      msg    |-> IF t.imsg \in HsMsgs THEN t.imsg ELSE "HELLO_REQUEST",
      sealed |-> t.wsec = 1,
      auth   |-> t.auth = 1,
